@@ -5,7 +5,7 @@ from .c06 import norm_tok
 
 REQUIRED = ['Petl.C08.' + n for n in (
     'complement_count complement_strict_count intersection_count complement_append_intersection '
-    'hash_variants_same_counts hash_variants_in_order_of_a hash_counts').split()]
+    'hash_variants_same_counts hash_variants_in_order_of_a hash_counts recordcomplement_count alignRows_cells alignRows_rect').split()]
 
 CELLS = [None, 1, 1.0, True, 2, 'a', 'b', (1, 'a'), 2.5, b'a']
 
@@ -35,7 +35,7 @@ def run(ctx):
         ctx.bridge('translator: fingerprints of the petl functions the hand-written models mirror (%d bodies)' % _fpi['names'], True)
     except Exception as e:   # noqa
         ctx.bridge('translator: source fingerprints extracted', False, repr(e))
-    ctx.prove(['PetlProofs.Props.C08', 'PetlProofs.Snapshot.C08'], REQUIRED + ['Petl.Snapshot.C08_sources_as_validated'])
+    ctx.prove(['PetlProofs.Props.C08', 'PetlProofs.Props.C08Record', 'PetlProofs.Snapshot.C08'], REQUIRED + ['Petl.Snapshot.C08_sources_as_validated'])
     rng = ctx.rng
     n = 2500 if ctx.thorough() else 350
     jobs = []   # (name, line, thunk, oracle Counter or None, hdr expected, case)
